@@ -10,7 +10,7 @@ RULE = ('cases = one real stack against a scripted conforming peer written from 
         'data link layers, in four roles: stack originator vs reference responder (grant policy random / maximum / one packet / enumerated lists of grant '
         'sizes, 0-3 hold CTS <0.5 s apart before the first grant and between windows, reply latency 0..150 ms, zero = answered inside the stack\'s send '
         'call on J1939-21), reference originator (RTS limit 1..255, packet pacing 0..190 ms) vs stack responder, stack BAM sender, reference BAM sender '
-        '(spacing 50..200 ms / 10..200 ms FD) vs stack receiver; plus stack-to-stack runs re-decoded by the sniffer; sizes over the whole range incl. '
+        '(spacing 50..200 ms / 10..200 ms FD) vs stack receiver; plus stack-to-stack runs re-decoded by the sniffer; plus series of 5-9 messages in a row (broadcasts and destination-specific ones, some overlapping) from one stack object, each accepted and decoded independently; sizes over the whole range incl. '
         'boundaries, windows 1..255, PGNs with data page 0/1; oracle = the independent sniffer decodes every frame of the stack (identifier fields, '
         'control bytes, sizes, packet counts, LE PGN, 1-based in-order sequence numbers, FF padding and reserved bytes, legal FD lengths) to exactly the '
         'submitted message, the conforming peer reassembles it, conforming input is delivered exactly once with PGN/SA/payload and acknowledged '
@@ -20,7 +20,7 @@ ASSUMPTIONS = ['reference leniencies: FD abort bytes, Multi-PG padding bytes and
                'the reference was validated against the literal frame vectors of the pinned suite (tools/selftest.py)']
 MIN_OBS = {'exchanges': {'quick': 2800, 'thorough': 28000}, 'stack_originator': {'quick': 1000, 'thorough': 10000}, 'stack_responder': {'quick': 800, 'thorough': 8000},
            'cts_checked': {'quick': 30000, 'thorough': 300000}, 'dt_checked': {'quick': 60000, 'thorough': 600000}, 'holds_exercised': {'quick': 2000, 'thorough': 20000},
-           'zero_latency': {'quick': 800, 'thorough': 8000}}
+           'zero_latency': {'quick': 800, 'thorough': 8000}, 'series_messages': {'quick': 600, 'thorough': 7000}}
 
 
 def cases(tier, seed):
@@ -43,10 +43,81 @@ def cases(tier, seed):
                     c = xchg.gen_case(rng, layer=layer, role='stack_orig')
                     c.update(size=unit * P - 3, w=255, grant='list', grants=[g1, g2] + [P] * P, holds=(0, 0), reply=(0.0, 0.001), zero=0.0, dt_interval=None)
                     out.append(c)
+    # series of messages from one stack object
+    for i in range(120 if tier == 'quick' else 1500):
+        out.append(dict(kind='series', layer='j1939-22' if i % 2 else 'j1939-21', seed=rng.randrange(1 << 30)))
     return out
 
 
+def run_series(case):
+    """5-9 messages in a row (broadcasts and destination-specific ones mixed, some overlapping in time) from ONE stack object to the reference
+    responder: every one is accepted, and the independent sniffer decodes each to exactly what was submitted (state left behind by an
+    earlier transfer -- session numbers, buffers -- must not show on the wire of a later one)"""
+    from vt.world import World
+    from ref import sniffer as SN
+    from ref.peers import Responder
+    layer = case['layer']
+    fd = layer == 'j1939-22'
+    rng = random.Random(case['seed'])
+    W = World(case['seed'], layer, (0.0001, 0.002))
+    sim = W.sim
+    viol = M.Violations()
+    tag = dict(layer=layer, role='series')
+    A = W.stack('A', max_cmdt_packets=rng.choice([1, 3, 255]))
+    ca = W.ca(A, 0x10, identity_number=1)
+    R = Responder(W.bus, sim, rng, 0x20, fd, grant='max', holds=(0, 0), reply=(0.0, 0.002), hold_between=0.0)
+    W.run(0.01)
+    unit = 60 if fd else 7
+    msgs = []
+    t = 0.02
+    kinds = [rng.random() < 0.6 for _ in range(rng.randint(5, 9))]
+    bam_busy_until = 0.0
+    for i, bam in enumerate(kinds):
+        n = rng.randint(2, 4)
+        size = unit * n - rng.randrange(unit)
+        size = max(size, 61 if fd else 9)
+        pay = [i] + [rng.randrange(256) for _ in range(size - 1)]
+        pf = rng.choice([0xFE, 0xFF, 0xF1]) if bam else 0xD0 + i
+        ps = rng.randrange(256) if bam else 0x20
+        dur = (n + 2) * ((0.011 if fd else 0.051) if bam else 0.004) + 0.01
+        if bam:
+            t = max(t, bam_busy_until)          # one broadcast at a time (J1939-21 allows no more)
+            bam_busy_until = t + dur
+        m = dict(i=i, bam=bam, pay=bytes(pay), pf=pf, ps=ps, t=t, ret=None)
+        msgs.append(m)
+        sim.at(t, lambda m=m, pay=pay: m.update(ret=W.call('send', ca.send_pgn, 0, m['pf'], m['ps'], 6, list(pay))))
+        # the next one after this one is through -- or, for a destination-specific message following a broadcast, while it is still running
+        nxt_bam = kinds[i + 1] if i + 1 < len(kinds) else True
+        t += dur / 2 if (bam and not nxt_bam and rng.random() < 0.5) else dur
+    W.run(t + 3.0)
+    obs = dict(exchanges=1, series_messages=len(msgs), frames=len(W.bus.frames), cts_checked=0, dt_checked=0, holds_exercised=0, bam_gaps_measured=0, cmdt_gaps_measured=0,
+               stack_originator=1, stack_responder=0, zero_latency=0, background_timer=0)
+    sn = SN.sniff(layer, W.bus.frames)
+    for p in sn.problems:
+        if p[0] == 'A':
+            viol.add('wire_' + p[1] if len(p) > 2 else 'wire_problem', 'series: %s' % (p[2] if len(p) > 2 else p,), **tag)
+    decoded = [s.payload() for s in sn.sessions if s.src == 'A']
+    for m in msgs:
+        rec = m['ret']
+        # a destination-specific message submitted while a broadcast is running is on another pair / in another pool: it must be accepted;
+        # two broadcasts never overlap here
+        if rec is None or rec.get('ret') is not True:
+            viol.add('send_refused', 'series message #%d (%s, %d bytes) at %.3f: send_pgn returned %r / raised %s'
+                     % (m['i'], 'BAM' if m['bam'] else 'RTS/CTS', len(m['pay']), m['t'], rec and rec.get('ret'), rec and rec.get('exc')), **tag)
+        elif decoded.count(m['pay']) != 1:
+            viol.add('wire_payload', 'series message #%d (%s, %d bytes): the independent decoder reassembles it %d times from the stack\'s frames'
+                     % (m['i'], 'BAM' if m['bam'] else 'RTS/CTS', len(m['pay']), decoded.count(m['pay'])), **tag)
+    M.m_live(viol, W, layer)
+    M.m_quiet(viol, W, layer, what='3 s after the series')
+    sample = dict(case=case, messages=[(m['i'], 'bam' if m['bam'] else 'p2p', len(m['pay']), round(m['t'], 3), m['ret'] and m['ret'].get('ret')) for m in msgs])
+    res = dict(violations=list(viol), inconclusive=None, sig=repr(('series', layer, len(msgs))), nontrivial=True, obs=obs, sample=sample)
+    W.close()
+    return res
+
+
 def run_case(case):
+    if case.get('kind') == 'series':
+        return run_series(case)
     r = xchg.run_exchange(case)
     viol = M.Violations()
     for (kind, msg) in r['findings']:
